@@ -6,7 +6,9 @@
    `x <- m ;; k` is the exception monad: a law such as
    (t <- plus a b ;; plus t c) = (t <- plus b c ;; plus a t) also says that neither side raises. *)
 From Coq Require Import Reals Lra ZArith Bool String List.
-From PL.C12 Require Import ModelPy ModelR GenSemirings SpecSemiring ProofsProb ProofsLog ProofsDefaults ProofsSym.
+From PL.C12 Require Import ModelPy ModelPySet ModelR GenSemirings SpecSemiring ProofsProb ProofsLog ProofsDefaults ProofsSym ProofsMPE.
+From PL.C12 Require ProofsMPEModel.
+From PL.C20 Require ModelMPE.
 Import ListNotations.
 Local Open Scope string_scope.
 Local Open Scope R_scope.
@@ -203,7 +205,167 @@ Theorem C12_symbolic_laws_partial : forall (atomic : string -> Prop) (aval : str
 Proof. exact sym_laws_under_den. Qed.
 Print Assumptions C12_symbolic_laws_partial.
 
+(* ---------------------------------------------------------------- SemiringMPEState (problog/tasks/mpe.py) *)
+(* States are (probability, set of literal keys); `St p s` is the state with the finite probability p.
+   plus: the probability is the maximum, the witness is that of the argument with the LARGER
+   probability, and on a tie of the probabilities the FIRST argument's witness. *)
+Theorem C12_mpe_plus_is_max : forall x s y t,
+  mpe_plus Rops (St x s) (St y t) = Ok (St (Rmax x y) (if Rltb x y then t else s)) /\
+  (y < x -> mpe_plus Rops (St x s) (St y t) = Ok (St x s)) /\
+  (x < y -> mpe_plus Rops (St x s) (St y t) = Ok (St y t)) /\
+  (x = y -> mpe_plus Rops (St x s) (St y t) = Ok (St x s)).
+Proof.
+  exact (fun x s y t => conj (mpe_plus_char x s y t) (conj (proj1 (mpe_plus_larger x s y t))
+          (conj (proj2 (mpe_plus_larger x s y t))
+                (fun E => eq_ind x (fun y => mpe_plus Rops (St x s) (St y t) = Ok (St x s)) (mpe_plus_first_wins_on_tie x s t) y E)))).
+Qed.
+Print Assumptions C12_mpe_plus_is_max.
+
+(* times: product of the probabilities, union of the witness sets (membership; duplicate-freeness kept) *)
+Theorem C12_mpe_times_is_product_union : forall x s y t,
+  mpe_times Rops (St x s) (St y t) = Ok (St (x * y) (zs_union s t)) /\
+  (forall k, In k (zs_union s t) <-> In k s \/ In k t) /\
+  (NoDup s -> NoDup t -> NoDup (zs_union s t)).
+Proof.
+  exact (fun x s y t => conj (mpe_times_char x s y t) (conj (fun k => zs_union_In k s t) (zs_union_NoDup s t))).
+Qed.
+Print Assumptions C12_mpe_times_is_product_union.
+
+(* max-times commutative-semiring laws on the probability component (prob_part), for all reals
+   (distributivity and the zero law: non-negative weights); neither side raises *)
+Theorem C12_mpe_max_times_semiring : forall x s y t z u,
+  (* plus: commutative, associative (exactly, witness included), idempotent *)
+  (prob_part (mpe_plus Rops (St x s) (St y t)) = Ok (RF (Rmax x y)) /\
+   prob_part (mpe_plus Rops (St y t) (St x s)) = Ok (RF (Rmax x y))) /\
+  ((ab <- mpe_plus Rops (St x s) (St y t) ;; mpe_plus Rops ab (St z u)) =
+   (bc <- mpe_plus Rops (St y t) (St z u) ;; mpe_plus Rops (St x s) bc) /\
+   prob_part (ab <- mpe_plus Rops (St x s) (St y t) ;; mpe_plus Rops ab (St z u)) = Ok (RF (Rmax (Rmax x y) z))) /\
+  mpe_plus Rops (St x s) (St x s) = Ok (St x s) /\
+  (* times: commutative and associative on the probability, witnesses extensionally equal sets *)
+  (exists w w', mpe_times Rops (St x s) (St y t) = Ok (St (x * y) w) /\
+                mpe_times Rops (St y t) (St x s) = Ok (St (x * y) w') /\ zs_eqb w w' = true) /\
+  (exists w w',
+    (ab <- mpe_times Rops (St x s) (St y t) ;; mpe_times Rops ab (St z u)) = Ok (St (x * y * z) w) /\
+    (bc <- mpe_times Rops (St y t) (St z u) ;; mpe_times Rops (St x s) bc) = Ok (St (x * y * z) w') /\
+    zs_eqb w w' = true) /\
+  (* one neutral (exactly), zero annihilates *)
+  ((o <- mpe_one Rops ;; mpe_times Rops o (St x s)) = Ok (St x s) /\
+   (o <- mpe_one Rops ;; mpe_times Rops (St x s) o) = Ok (St x s)) /\
+  ((z0 <- mpe_zero Rops ;; mpe_times Rops z0 (St x s)) = Ok (St 0 s) /\
+   (z0 <- mpe_zero Rops ;; mpe_times Rops (St x s) z0) = Ok (St 0 s)) /\
+  (* zero neutral for plus on non-negative weights *)
+  (0 <= x -> (z0 <- mpe_zero Rops ;; mpe_plus Rops (St x s) z0) = Ok (St x s) /\
+             prob_part (z0 <- mpe_zero Rops ;; mpe_plus Rops z0 (St x s)) = Ok (RF x) /\
+             (0 < x -> (z0 <- mpe_zero Rops ;; mpe_plus Rops z0 (St x s)) = Ok (St x s))) /\
+  (* times distributes over plus for a non-negative factor *)
+  (0 <= x ->
+   prob_part (bc <- mpe_plus Rops (St y t) (St z u) ;; mpe_times Rops (St x s) bc) = Ok (RF (x * Rmax y z)) /\
+   prob_part (ab <- mpe_times Rops (St x s) (St y t) ;; ac <- mpe_times Rops (St x s) (St z u) ;; mpe_plus Rops ab ac)
+     = Ok (RF (x * Rmax y z))).
+Proof.
+  exact (fun x s y t z u =>
+    conj (mpe_plus_prob_comm x s y t)
+   (conj (conj (mpe_plus_assoc x s y t z u) (mpe_plus_assoc_prob x s y t z u))
+   (conj (mpe_plus_first_wins_on_tie x s s)
+   (conj (proj2 (mpe_times_prob_comm x s y t))
+   (conj (mpe_times_assoc x s y t z u)
+   (conj (mpe_times_one x s)
+   (conj (mpe_times_zero x s)
+   (conj (mpe_plus_zero x s)
+         (mpe_distr_prob x s y t z u))))))))).
+Qed.
+Print Assumptions C12_mpe_max_times_semiring.
+
+(* for a strictly positive factor distributivity is exact, witness included
+   (for the factor 0 both products tie at 0 and the first one's witness is returned) *)
+Theorem C12_mpe_distributes_with_witness : forall x s y t z u, 0 < x ->
+  (bc <- mpe_plus Rops (St y t) (St z u) ;; mpe_times Rops (St x s) bc) =
+  (ab <- mpe_times Rops (St x s) (St y t) ;; ac <- mpe_times Rops (St x s) (St z u) ;; mpe_plus Rops ab ac).
+Proof. exact mpe_distr_exact. Qed.
+Print Assumptions C12_mpe_distributes_with_witness.
+
+(* external values: pos_value(p, key) = (p, {key}), neg_value(p, key) = (1-p, {-key}),
+   ad_complement(ws, key) = (1 - sum of the probabilities, {key}) *)
+Theorem C12_mpe_values : forall p k (ws : list (R * list Z)),
+  mpe_pos_value Rops (RF p) k = Ok (St p [k]) /\
+  mpe_neg_value Rops (RF p) k = Ok (St (1 - p) [(- k)%Z]) /\
+  mpe_ad_complement Rops (map (fun a => St (fst a) (snd a)) ws) k = Ok (St (1 - Rsum (map fst ws)) [k]).
+Proof.
+  exact (fun p k ws => conj (proj1 (mpe_pos_neg_value p k)) (conj (proj2 (mpe_pos_neg_value p k)) (mpe_ad_complement_R ws k))).
+Qed.
+Print Assumptions C12_mpe_values.
+
+(* inherited defaults of the base class, as they resolve for SemiringMPEState *)
+Theorem C12_mpe_defaults :
+  (o <- mpe_one Rops ;; mpe_is_one Rops o) = Ok true /\
+  (z <- mpe_zero Rops ;; mpe_is_zero Rops z) = Ok true /\
+  (o <- mpe_one Rops ;; mpe_is_zero Rops o) = Ok false /\
+  (z <- mpe_zero Rops ;; mpe_is_one Rops z) = Ok false /\
+  (forall a, (o <- mpe_one Rops ;; mpe_normalize Rops a o) = Ok a) /\
+  (forall a z, mpe_normalize Rops a z = (b <- mpe_is_one Rops z ;; if b then Ok a else Raise OperationNotSupported)) /\
+  (forall a, mpe_negate Rops a = Raise OperationNotSupported) /\
+  (forall a, mpe_result Rops a = Ok a) /\ (forall v, mpe_value Rops v = Ok v) /\
+  (forall a, mpe_in_domain Rops a = Ok true) /\
+  mpe_is_nsp Rops = Ok true /\ mpe_is_dsp Rops = Ok false /\
+  mpe_result_one Rops = Ok (St 1 []) /\ mpe_result_zero Rops = Ok (St 0 []) /\
+  mpe_true Rops = Ok (St 1 [], St 0 []) /\ mpe_false Rops = Ok (St 0 [], St 1 []) /\
+  (forall a b, mpe_ad_negate Rops a b = Ok (St 1 [])).
+Proof. exact mpe_defaults. Qed.
+Print Assumptions C12_mpe_defaults.
+
+(* is_one / is_zero are Python's tuple comparison: exact probability and extensionally empty set *)
+Theorem C12_mpe_is_one_is_tuple_equality : forall p s,
+  mpe_is_one Rops (St p s) = Ok (Reqb p 1 && zs_eqb s []) /\
+  mpe_is_zero Rops (St p s) = Ok (Reqb p 0 && zs_eqb s []).
+Proof. exact mpe_is_one_char. Qed.
+Print Assumptions C12_mpe_is_one_is_tuple_equality.
+
+(* SemiringMinPEState: plus picks the smallest NON-ZERO probability (first argument on a tie);
+   everything else is inherited from SemiringMPEState *)
+Theorem C12_minpe_plus : forall x s y t,
+  minpe_plus Rops (St x s) (St y t) =
+  Ok (if Reqb x 0 then St y t else if Reqb y 0 then St x s else if Rltb y x then St y t else St x s).
+Proof. exact minpe_plus_char. Qed.
+Print Assumptions C12_minpe_plus.
+
+(* the translated definitions, at the exact-rational instance Qops, compute the hand model of
+   SemiringMPEState used by the C20 theorems (C20/ModelMPE.v); encv maps a C20 value (Q, list of
+   (negated?, atom)) to a translated state, atom keys non-zero (wf) *)
+Theorem C12_mpe_translation_computes_C20_model :
+  (mpe_zero ProofsMPEModel.Qops = Ok (ProofsMPEModel.encv ModelMPE.sr_zero) /\
+   mpe_one ProofsMPEModel.Qops = Ok (ProofsMPEModel.encv ModelMPE.sr_one)) /\
+  (forall a b, mpe_plus ProofsMPEModel.Qops (ProofsMPEModel.encv a) (ProofsMPEModel.encv b)
+               = Ok (ProofsMPEModel.encv (ModelMPE.sr_plus a b))) /\
+  (forall a b, ProofsMPEModel.wf a -> ProofsMPEModel.wf b ->
+     mpe_times ProofsMPEModel.Qops (ProofsMPEModel.encv a) (ProofsMPEModel.encv b)
+       = Ok (ProofsMPEModel.encv (ModelMPE.sr_times a b)) /\ ProofsMPEModel.wf (ModelMPE.sr_times a b)) /\
+  (forall a b, ProofsMPEModel.wf a -> ProofsMPEModel.wf b -> ProofsMPEModel.wf (ModelMPE.sr_plus a b)) /\
+  (forall (wpos : N -> QArith_base.Q) (x : N),
+     mpe_pos_value ProofsMPEModel.Qops (FFin (N:=ProofsMPEModel.Qops) (wpos x)) (Z.of_N x)
+       = Ok (ProofsMPEModel.encv (ModelMPE.pos_value wpos x)) /\
+     mpe_neg_value ProofsMPEModel.Qops (FFin (N:=ProofsMPEModel.Qops) (wpos x)) (Z.of_N x)
+       = Ok (ProofsMPEModel.encv (ModelMPE.neg_value (fun y => QArith_base.Qminus (QArith_base.Qmake 1 1) (wpos y)) x)) /\
+     (x <> 0%N -> ProofsMPEModel.wf (ModelMPE.pos_value wpos x) /\
+                  ProofsMPEModel.wf (ModelMPE.neg_value (fun y => QArith_base.Qminus (QArith_base.Qmake 1 1) (wpos y)) x))).
+Proof.
+  exact (conj ProofsMPEModel.mpe_consts_model (conj ProofsMPEModel.mpe_plus_model
+        (conj ProofsMPEModel.mpe_times_model (conj ProofsMPEModel.mpe_plus_model_wf ProofsMPEModel.mpe_values_model)))).
+Qed.
+Print Assumptions C12_mpe_translation_computes_C20_model.
+
 (* ---------------------------------------------------------------- non-vacuity *)
+Example C12_mpe_example :
+  mpe_plus Rops (St (1/2) [1%Z]) (St (1/2) [(-1)%Z]) = Ok (St (1/2) [1%Z]) /\
+  mpe_plus Rops (St (1/4) [1%Z]) (St (1/2) [(-1)%Z]) = Ok (St (1/2) [(-1)%Z]) /\
+  mpe_times Rops (St (1/2) [1%Z; 2%Z]) (St (1/2) [2%Z; (-3)%Z]) = Ok (St (1/2 * (1/2)) [1%Z; 2%Z; (-3)%Z]) /\
+  ProofsMPEModel.wf (QArith_base.Qmake 1 1, [(true, 3%N); (false, 1%N)]).
+Proof.
+  repeat split.
+  - apply mpe_plus_first_wins_on_tie.
+  - apply mpe_plus_larger. lra.
+  - repeat constructor; discriminate.
+Qed.
+
 Example C12_domains_inhabited :
   Dprob (RF (3/8)) /\ Dunit (RF (3/8)) /\ Dlog (llog (3/8)) /\ Dlog FNInf /\ proper (RF 1).
 Proof.
